@@ -392,6 +392,12 @@ impl Harness for C01 {
                 ("ls_checked", 100_000),
                 ("min_norm_checked", 10_000),
                 ("family_cases", 10_000),
+                // round-2 extension: tiny non-zero entries among ordinary ones
+                ("tiny_cases", 500_000),
+                ("tiny_lu_cases", 250_000),
+                ("tiny_lu_tiny_diagonal_candidate_must_lose", 50_000),
+                ("tiny_rank_deficient_in_domain", 30_000),
+                ("tiny_fam4_cases", 10_000),
             ],
             bounds: json!({
                 "alphabet_perturbation_of_seed": pert.describe(),
@@ -399,7 +405,8 @@ impl Harness for C01 {
                 "float_widths": ["f64", "f32"],
                 "lattice_general": format!("every m x n matrix, 1<=m,n<=3, over {:?}; 4x1,1x4 over the same; 4x2,2x4 over {:?}; 4x4 over {{0,1}} and {{1,-1}} (scale 1){}", alpha, if t { S5 } else { S3 }, if t { "; 4x3, 3x4 over {0,1,-1}; 4x4 over {0,1,-1} (scale 1); 4x4 upper Hessenberg over {0,1,-1} at the other scales" } else { "; 4x3, 3x4 over {0,1}" }),
                 "lattice_symmetric": format!("every symmetric n x n, n<=3, off-diagonal over {:?}, diagonal over {:?}; {}", S5, D6, if t { "4x4 off-diagonal {0,1,-1} x diagonal {0,1,-1,2,3,4} at all scales; 4x4 off-diagonal {0,1,-1,2,-2} x the same diagonal (scale 1); 5x5 off-diagonal {0,1,-1} diagonal {1,2,0} (scale 1, f64)" } else { "4x4 off-diagonal {0,1,-1} diagonal {1,2,0} (scale 1)" }),
-                "gram": "for every full-column-rank lattice matrix G also the SPD matrix G^T G (Cholesky clauses only)",
+                "gram": "for every full-column-rank lattice matrix G (plain and wide-dynamic-range) also the SPD matrix G^T G (Cholesky clauses only)",
+                "wide_dynamic_range": format!("tiny entry t = 2^-s among ordinary (perturbed) entries, scale 1, (s, width) in {:?}: every 3x3 matrix over {{0,1,-1,t}} and over {{0,1,2,-t}} that contains at least one tiny entry (those without are in lattice_general){}; 4x4: P*(I + one extra off-diagonal entry in {{1,-1,t}} + t at one other off-diagonal position or at every other off-diagonal position), all 24 P x 12 positions x 3 values x 12 fills; rank / null spaces / leading-minor signs exactly from the minors as integer polynomials in 2^s (no i128 overflow); LU additionally max|L_ij| <= 1 (all LU cases of every family)", tiny_exponents(t), if t { "; every 3x4 and 4x3 matrix over {0,1,t} and over {1,-1,-t}" } else { "" }),
                 "families": format!("{} structured families, n = 1..{} (quick: also 16, 20, 24, 32, 40), every variant, aspects sq/t1/t5/t2n/w1/w5, every scale, both widths", gen::FAMILIES.len(), nmax),
                 "right_hand_sides": "B = A*X0, X0 over {0,1,-1} patterns with 1..4 columns (full catalogue: 3 patterns per width; 'pw': one per width; 'two': p=1 and p=3), each also with a component outside range(A) for tall / rank-deficient A",
                 "conditioning": "clauses demanded only for cond_2(A) <= 1e6 (oracle one-sided Jacobi); cond-sensitive clauses additionally only when max(m,n)*eps_T*cond <= 1/64",
